@@ -7,11 +7,11 @@ import subprocess
 from . import refparse as P
 from .common import NUMLIB, WORK, MachineryError, Stats, Violation, collect, finish, hx, pmap, shim, child_setup
 from .eng_debug import push
-from .eng_optdiff import G16, RunObs, big, bodies, loop_program, prefix_compatible
+from .eng_optdiff import G16, RunObs, big, bodies, labelflow_family, loop_program, prefix_compatible
 
 B = 800
 BATCH = 150          # programs per crate (x3 levels = modules)
-LOOP_TIMEOUT = 0.25
+LOOP_TIMEOUT = 0.06
 
 
 # ------------------------------------------------------------------ program families
@@ -20,7 +20,7 @@ def fam_templates():
     out = []
     for kind in range(6):
         for syl in (1, 2):
-            for d in (0, 1, 3, 4):
+            for d in (0, 1, 2, 3, 4):
                 c = P.spell(kind, syl, d)
                 for setup in ('', '형.. 형... ', '형.. 형... 형..... 흑.... 형.. '):
                     for obs in ('', ' 항. 항.', ' 흑... 항. 항.'):
@@ -48,6 +48,18 @@ def fam_areas(max_ops):
                 for s in setups:
                     for pre in ('', '형...♥ '):
                         out.append(pre + s + '항...' + toks + ' 형. 항.')
+    return out
+
+
+def fam_areas3():
+    """three operators: every operator pattern, hearts in all slots, each of the 27 value triples"""
+    out = []
+    for pat in itertools.product('?!', repeat=3):
+        toks = '♥' + pat[0] + '💕' + pat[1] + '♡' + pat[2] + '💖'
+        for a in (2, 3, 4):
+            for b in (2, 3, 4):
+                for x in (2, 3, 4):
+                    out.append('형...💖 %s %s %s 항...%s 형. 항.' % (push(a), push(b), push(x), toks))
     return out
 
 
@@ -322,21 +334,23 @@ def run_c03(tier):
     fams = {}
     if tier == 'quick':
         fams['templates'] = fam_templates()
-        fams['areas'] = fam_areas(1) + fam_areas(2)[::7]
+        fams['areas'] = fam_areas(1) + fam_areas(2)[::7] + fam_areas3()[::5]
         fams['dispatch'] = fam_dispatch()
-        fams['general'] = fam_general(2, ['', '항. 항.']) + fam_general(3, [''])[::5]
-        fams['resume'] = fam_resume(1) + fam_resume(2)[::7]
+        fams['general'] = fam_general(2, ['', '항. 항.']) + fam_general(3, [''])[::7]
+        fams['resume'] = fam_resume(1) + fam_resume(2)[::10]
         fams['chars'] = fam_chars()
         fams['labels'] = fam_labels()
+        fams['labelflow'] = labelflow_family()[::4]
         standalone = fam_templates()[::12] + fam_chars()[::9] + [g + ' ' + t for _, g in GADGETS for _, t in TRIGGERS][::2]
     else:
         fams['templates'] = fam_templates()
-        fams['areas'] = fam_areas(2)
+        fams['areas'] = fam_areas(2) + fam_areas3()
         fams['dispatch'] = fam_dispatch()
         fams['general'] = fam_general(3, ['', '항. 항.']) + fam_general(4, [''])[::4]
         fams['resume'] = fam_resume(2) + fam_resume(3)[::6]
         fams['chars'] = fam_chars()
         fams['labels'] = fam_labels()
+        fams['labelflow'] = labelflow_family()
         standalone = fam_templates() + fam_chars() + fam_resume(1)
     tasks = []
     for c in chunks(standalone, 8):
